@@ -4,7 +4,10 @@ K: the real BuckGophermapHandler (component level: entries after prepare(); end 
 end: the Gopher0 menu bytes) against Model/Gophermap.v evaluated inside Coq.
 Oracle: a Python twin of the DOCUMENTS (doc/pygopherd.txt, doc/standards/gophermap.txt,
 url.txt) — independent of the model and of the code — against the real entries and
-against what every protocol renders."""
+against what every protocol renders.
+Legs: small generated worlds (wf / padded / raising streams, plain tree and inside a ZIP archive, abstracts on/off),
+histories in one long-lived process, overlapping requests, and LARGE maps (size_leg: file sizes at / around / beyond
+4 KiB .. 1 MiB, thousands of lines, single lines of up to 300 kB, last line with and without its newline)."""
 import html
 import io
 import posixpath
@@ -930,6 +933,367 @@ def concurrency_leg(chk, rng, thorough, hit, stats):
 
 
 
+# ----------------------------------------------------------------------------
+# large gophermaps: sizes around and beyond the usual buffer boundaries, thousands of lines, very long lines
+# ----------------------------------------------------------------------------
+SIZE_BOUNDS = [4096, 8192, 65536, 131072, 1 << 20]
+
+
+def exact_text(rng, k):
+    """info text of exactly k bytes (k >= 1) without white space at either end"""
+    t = b""
+    while len(t) < k:
+        t += gen_text(rng, 20, 60) + b" "
+    t = t[:k].strip(b" ")
+    return t + b"x" * (k - len(t))
+
+
+def gen_sized_line(rng, depth, width):
+    """one well-formed line; width 'narrow' = as in the small maps, 'wide' = 60-300 bytes of text, 'tiny' = 0-6 bytes,
+    'blank' = mostly empty lines"""
+    if width == "narrow":
+        return gen_wf_line(rng, depth)
+    if width in ("tiny", "blank"):
+        k = rng.randrange(20 if width == "blank" else 6)
+        if k == 0 or k >= 6:
+            return b""
+        if k < 4:
+            return gen_text(rng, 1, 3)
+        return rng.choice(TYPES) + gen_text(rng, 1, 2) + b"\t" + rng.choice(selector_choices(depth)[0][:4])
+    if rng.randrange(10) < 4:
+        return gen_text(rng, 60, 300)
+    fs = gen_wf_link(rng, depth).split(b"\t")
+    if fs[1] != b"":                      # "the description doubles as selector" lines stay as they are
+        fs[0] = fs[0][:1] + gen_text(rng, 60, 300)
+    return b"\t".join(fs)
+
+
+def build_big(rng, depth, shape):
+    """shape: dict(kind=..., ...) -> (data, parts or None).  parts = [(block bytes, repetitions)] when the map is a
+    repetition (compact description for the model in Coq).  Kinds:
+      exact      the FILE is exactly `size` bytes (last line with / without its newline: final_nl)
+      cross      a line ends exactly at byte `bound`, `tail` more lines follow
+      straddle   random lines until the size passes bound + extra
+      rep        header + stanza * n + tail, size just beyond bound + extra
+      lines      `count` lines of the given width
+      longline   a few lines, ONE line of `length` bytes (info text / link description / URL: selector), `after` more lines"""
+    d = DEPTH_DIRS[depth]
+    dirsel = GEN_PREFIX[0].decode() + ("/" + d if d else "") or "/"
+    dirsels = [dirsel, dirsel.rstrip("/") + "/x.gophermap"]
+    eol = b"\r\n" if shape.get("eol") == "crlf" else b"\n"
+    width = shape.get("width", "narrow")
+
+    def mk():
+        return gen_tamed(rng, lambda: gen_sized_line(rng, depth, width), dirsels)
+
+    def fill(upto):
+        """lines whose total (with terminators) is exactly `upto`: the last one is an info line cut to measure"""
+        ls, tot = [], 0
+        while True:
+            l = mk()
+            if tot + len(l) + len(eol) > upto - len(eol) - 1:
+                break
+            ls.append(l)
+            tot += len(l) + len(eol)
+        ls.append(exact_text(rng, upto - tot - len(eol)))
+        return ls
+
+    kind = shape["kind"]
+    final_nl = shape.get("final_nl", True)
+    parts = None
+    if kind == "exact":
+        size = shape["size"]
+        ls = fill(size if final_nl else size + len(eol))
+    elif kind == "cross":
+        ls = fill(shape["bound"]) + [mk() for _ in range(shape["tail"])]
+    elif kind == "straddle":
+        ls, tot = [], 0
+        while tot <= shape["bound"] + shape["extra"]:
+            ls.append(mk())
+            tot += len(ls[-1]) + len(eol)
+    elif kind == "rep":
+        head = [mk() for _ in range(rng.randrange(1, 4))]
+        stanza = [mk() for _ in range(rng.randrange(4, 11))]
+        tail = [mk() for _ in range(rng.randrange(3, 7))]
+        if not final_nl and tail[-1] == b"":
+            tail[-1] = b"end"
+        size = lambda x: sum(len(l) + len(eol) for l in x)
+        n = max(2, -(-(shape["bound"] + shape["extra"] - size(head) - size(tail)) // max(1, size(stanza))))
+        ls = head + stanza * n + tail
+        tb = eol.join(tail) + (eol if final_nl else b"")
+        parts = [(eol.join(head) + eol, 1), (eol.join(stanza) + eol, n), (tb, 1)]
+    elif kind == "lines":
+        ls = [mk() for _ in range(shape["count"])]
+    elif kind == "longline":
+        width = "narrow"
+        L = shape["length"]
+        what = shape["what"]
+        if what == "info":
+            long = exact_text(rng, L)
+        elif what == "description":
+            long = rng.choice(TYPES) + exact_text(rng, L - 7) + b"\ta.txt"
+        else:
+            url = b"1web\tURL:http://example.org/"
+            long = url + (b"0123456789abcdef/" * (L // 17 + 1))[:L - len(url)]
+        ls = [mk() for _ in range(rng.randrange(2, 5))] + [long] + [mk() for _ in range(shape["after"])]
+    else:
+        raise ValueError(kind)
+    if not final_nl and ls[-1] == b"":
+        ls[-1] = b"end"                     # an empty last line without a newline is no line at all
+    data = eol.join(ls) + (eol if final_nl else b"")
+    if parts is not None:
+        assert b"".join(b * n for b, n in parts) == data
+    return data, parts
+
+
+def big_shapes(rng, thorough):
+    """the list of (shape, want K in Coq: None | 'entries' | 'entries+menu')"""
+    out = []
+    for B in SIZE_BOUNDS:
+        huge = B >= (1 << 20)
+        wide = "wide" if B >= 131072 else rng.choice(["narrow", "narrow", "wide"])
+        nl = rng.random() < 0.5
+        if huge and not thorough:
+            out.append(({"kind": "cross", "bound": B, "tail": rng.randrange(3, 40), "width": "wide", "final_nl": nl}, None))
+            continue
+        out.append(({"kind": "cross", "bound": B, "tail": rng.randrange(3, 40), "width": wide, "final_nl": nl,
+                     "eol": rng.choice(["lf", "lf", "crlf"])}, None))
+        out.append(({"kind": "rep", "bound": B, "extra": rng.randrange(1, max(2, B // (16 if huge else 4))),
+                     "width": rng.choice(["narrow", "wide"]), "final_nl": not nl, "eol": rng.choice(["lf", "lf", "crlf"])},
+                    None if huge else ("entries+menu" if B <= 65536 else "entries")))
+        if B <= 65536 or thorough:
+            out.append(({"kind": "straddle", "bound": B, "extra": rng.randrange(1, max(2, B // 4)), "width": wide,
+                         "final_nl": rng.random() < 0.5}, None))
+            ex = [(B, True), (B, False), (B - 1, True), (B + 1, False), (B + 1, True), (B - 1, False)]
+            for size, fnl in (ex if thorough or B <= 8192 else rng.sample(ex, 2)):
+                out.append(({"kind": "exact", "size": size, "final_nl": fnl, "width": wide}, None))
+    for count, width in ([(7000, "tiny"), (20000, "blank")] if not thorough else
+                         [(3000, "narrow"), (7000, "tiny"), (30000, "tiny"), (20000, "blank"), (70000, "blank")]):
+        out.append(({"kind": "lines", "count": count, "width": width, "final_nl": rng.random() < 0.5}, None))
+    lengths = [4095, 4096, 4097, 8191, 8192, 8193, 65535, 65536, 65537, 70001, 131071, 131073, 300000]
+    if thorough:
+        lengths += [(1 << 20) + 1]
+    whats = ["info", "description", "url"]
+    picks = [(L, w) for L in lengths for w in whats] if thorough else \
+        [(L, rng.choice(whats)) for L in rng.sample(lengths[:6], 3) + rng.sample(lengths[6:], 4)]
+    for L, what in picks:
+        out.append(({"kind": "longline", "length": L, "what": what, "after": rng.choice([0, 0, 1, 4]),
+                     "final_nl": rng.random() < 0.5, "eol": rng.choice(["lf", "lf", "crlf"])}, None))
+    return out
+
+
+def size_leg(chk, rng, thorough, hit, stats):
+    """Large gophermaps as <dir>/gophermap and x.gophermap at every depth (a few inside a ZIP archive), asked for in every
+    protocol.  Oracle (documents' reading, computed here): as many entries / rendered items as the map has lines, every
+    entry and every rendered description is the documented one -- the LAST lines in particular -- and the link targets of
+    the first, the last and a sample of the lines in between.  Returns Coq jobs for the maps built by repetition."""
+    shapes = big_shapes(rng, thorough)
+    slots = [(depth, is_file) for depth in range(len(DEPTH_DIRS)) for is_file in (False, True)]
+    rng.shuffle(slots)
+    worlds, cur, cur_bytes = [], [], 0
+
+    def flush():
+        nonlocal cur, cur_bytes
+        if cur:
+            maps = {m["path"]: m["data"] for m in cur}
+            tree = tree_for(maps)
+            worlds.append({"tree": tree, "config": CONFIG, "meta": cur, "existing": existing_selectors(tree), "zip": None})
+        cur, cur_bytes = [], 0
+
+    for k, (shape, wantk) in enumerate(shapes):
+        depth, is_file = slots[k % len(slots)]
+        if wantk == "entries+menu" and shape.get("bound", 0) >= 65536:
+            is_file = False                        # the one expensive menu evaluation: both model variants coincide
+        if any((m["depth"], m["is_file"]) == (depth, is_file) for m in cur) or cur_bytes > 300_000:
+            flush()
+        data, parts = build_big(rng, depth, shape)
+        d = DEPTH_DIRS[depth]
+        path = (d + "/" if d else "") + ("x.gophermap" if is_file else "gophermap")
+        cur.append({"path": path, "selector": "/" + path if is_file else ("/" + d if d else "/"), "is_file": is_file,
+                    "depth": depth, "data": data, "parts": parts, "shape": shape, "k": wantk})
+        cur_bytes += len(data)
+    flush()
+    # inside a ZIP archive (read through zipfile's own buffered reader)
+    GEN_PREFIX[0] = ZIPSEL.encode()
+    try:
+        zshapes = [(0, False, {"kind": "exact", "size": 8192, "final_nl": False}),
+                   (1, False, {"kind": "cross", "bound": 65536, "tail": rng.randrange(3, 40), "final_nl": rng.random() < 0.5}),
+                   (0, True, {"kind": "straddle", "bound": 131072, "extra": rng.randrange(1, 30000), "width": "wide",
+                              "final_nl": rng.random() < 0.5}),
+                   (2, True, {"kind": "lines", "count": 6000, "width": "tiny", "final_nl": True})]
+        if thorough:
+            zshapes.append((3, False, {"kind": "cross", "bound": 1 << 20, "tail": 25, "width": "wide", "final_nl": False}))
+        zmeta, zmaps = [], {}
+        for depth, is_file, shape in zshapes:
+            data, _ = build_big(rng, depth, shape)
+            d = DEPTH_DIRS[depth]
+            path = (d + "/" if d else "") + ("x.gophermap" if is_file else "gophermap")
+            zmaps[path] = data
+            zmeta.append({"path": path, "selector": ZIPSEL + "/" + path if is_file else (ZIPSEL + "/" + d if d else ZIPSEL),
+                          "is_file": is_file, "depth": depth, "data": data, "parts": None, "shape": shape, "k": None})
+        ztree, members = zip_tree(zmaps)
+        worlds.append({"tree": ztree, "config": ZCONFIG, "meta": zmeta, "existing": members, "zip": ZIPSEL})
+    finally:
+        GEN_PREFIX[0] = b""
+
+    jobs = []
+    for w in worlds:
+        reqs, rmeta = [], []
+        for mi, m in enumerate(w["meta"]):
+            protos = gen.PROTOCOLS
+            if len(m["data"]) >= (1 << 20) and not thorough:
+                # a megabyte in every protocol costs seconds: Gopher, Gopher+ and three of the others per run
+                protos = ["gopher", "gopherplus"] + rng.sample(["http", "wap", "gemini", "spartan", "https", "sgopher"], 3)
+            for proto in protos:
+                data, tls = gen.request_bytes(proto, m["selector"])
+                reqs.append({"data": gen.lat(data), "tls": tls})
+                rmeta.append((mi, proto, data, tls))
+        w["rmeta"] = rmeta
+        jobs.append({"op": "gm_world", "tree": w["tree"], "config": w["config"], "maps": [m["selector"] for m in w["meta"]],
+                     "requests": reqs})
+    res = impl_run_parallel(jobs, chunks=min(len(jobs), 8))
+    for r in res:
+        if not r["ok"]:
+            raise RuntimeError(r["err"] + "\n" + r.get("tb", ""))
+
+    stats.update({"large_maps": 0, "large_map_lines": 0, "large_map_bytes": 0, "largest_map_bytes": 0, "largest_map_lines": 0,
+                  "longest_line_bytes": 0, "large_map_requests": 0, "large_map_entry_checks": 0, "large_map_item_checks": 0,
+                  "large_map_target_checks": 0, "large_zip_maps": 0, "large_map_k_cases": 0})
+    coqjobs = []
+    for wn, (w, r) in enumerate(zip(worlds, res)):
+        P = "b%d_" % wn
+        pre = ["Definition %sex : list str := %s." % (P, coq_list([coq_str(s) for s in w["existing"]]))]
+        comps = r["res"]["components"]
+        per_map = []
+        for mi, (m, c) in enumerate(zip(w["meta"], comps)):
+            raw = split_lines(m["data"])
+            lines = [u(l) for l in raw]
+            ddir = doc_dir(m["selector"], m["is_file"])
+            wants = [twin_item(ddir, ln) if twin_wf(ln) else None for ln in lines]
+            stats["large_maps"] += 1
+            stats["large_zip_maps"] += bool(w["zip"])
+            stats["large_map_lines"] += len(lines)
+            stats["large_map_bytes"] += len(m["data"])
+            stats["largest_map_bytes"] = max(stats["largest_map_bytes"], len(m["data"]))
+            stats["largest_map_lines"] = max(stats["largest_map_lines"], len(lines))
+            stats["longest_line_bytes"] = max([stats["longest_line_bytes"]] + [len(l) for l in raw])
+            chk.count(("large-map", m["selector"], m["data"]))
+            base = {"kind": "large-map", "selector": m["selector"], "is_mapfile": m["is_file"], "inside_zip": w["zip"],
+                    "shape": m["shape"], "gophermap_bytes": len(m["data"]), "gophermap_lines": len(lines),
+                    "last_line_has_newline": m["data"].endswith(b"\n"), "gophermap_latin1": lat(m["data"]),
+                    "tree": w["tree"], "config": w["config"]}
+            per_map.append((lines, wants, base))
+            if c["handler"] != "BuckGophermapHandler":
+                hit("large-map:selection", dict(base, what="a large gophermap was not handed to BuckGophermapHandler",
+                                                handler=c["handler"], exception=c["exc"]))
+                continue
+            if c["exc"] is not None:
+                hit("large-map:prepare-raises", dict(base, what="prepare() raised on a large well-formed gophermap", exception=c["exc"]))
+                continue
+            ents = c["entries"]
+            if len(ents) != len(lines):
+                k = min(len(ents), len(lines))
+                hit("large-map:entry-count",
+                    dict(base, what="number of entries differs from number of gophermap lines", entries=len(ents),
+                         entries_stop_after_byte=sum(len(l) for l in raw[:k]),
+                         first_line_without_entry=lines[k][:200] if k < len(lines) else None,
+                         last_entries=[[e["type"], e["name"][:80], e["selector"][:80]] for e in ents[-3:]]))
+            else:
+                for i, (wt, e) in enumerate(zip(wants, ents)):
+                    if wt is None:
+                        continue
+                    stats["large_map_entry_checks"] += 1
+                    got = (e["type"], e["name"], e["selector"], e["host"], e["port"])
+                    if wt != got:
+                        hit("large-map:entry-mismatch",
+                            dict(base, what="an entry of a large gophermap differs from the documented reading of its line",
+                                 line_index=i, lines_after_it=len(lines) - 1 - i, line=lines[i][:300],
+                                 line_starts_at_byte=sum(len(l) for l in raw[:i]),
+                                 documented=[str(x)[:300] for x in wt], implementation=[str(x)[:300] for x in got]))
+                        break
+            # K: the model in Coq on the compact description
+            if m["k"] and m["parts"] is not None and not w["zip"]:
+                pname = "%sp%d" % (P, mi)
+                pre.append("Definition %s : list (str * N) := %s." % (
+                    pname, coq_list(["(%s, %d)" % (coq_str(u(b)), n) for b, n in m["parts"]])))
+                cores = [coq_core(e["type"], e["name"], e["selector"], e["host"], e["port"], e["gplus"]) for e in ents]
+                key = dict(base, kind="large-map entries", tree=None, gophermap_latin1=None,
+                           implementation={"entries": len(ents), "first": ents[:2], "last": ents[-2:]})
+                # typed: a list of entries without host and port gives Coq nothing to infer the type of None from
+                pre.append("Definition %so%d : (N * (list core * list core)) := (%d, (%s, %s))." % (
+                    P, mi, len(ents), coq_list(cores[:5]), coq_list(cores[-8:])))
+                cases = ["(%s, (((%s, %s), (%s, %sex)), %so%d))" % (
+                    coq_bool(fixed), coq_str(m["selector"]), coq_bool(m["is_file"]), pname, P, P, mi) for fixed in (True, False)]
+                coqjobs.append([pre, cases, [(True, key), (False, key)], "chk_bigworld"])
+                stats["large_map_k_cases"] += 1
+        # ---- every protocol
+        for (mi, proto, data, tls), out in zip(w["rmeta"], r["res"]["results"]):
+            m, c = w["meta"][mi], comps[mi]
+            lines, wants, base = per_map[mi]
+            stats["large_map_requests"] += 1
+            chk.count(("large-map e2e", proto, m["selector"], m["data"]))
+            ob = out["out"].encode("latin-1")
+            replay = dict(base, protocol=proto, request_latin1=gen.lat(data), tls=tls, exception=out["exc"],
+                          response_bytes=len(ob), response_latin1=out["out"][:1500], response_tail_latin1=out["out"][-1500:])
+            if c["handler"] != "BuckGophermapHandler" or c["exc"] is not None:
+                continue
+            rits, items = rendered_items(proto, ob)
+            if out["exc"] is not None or rits is None:
+                hit(f"large-map:render-failed:{proto}",
+                    dict(replay, what="the listing of a large gophermap could not be read back as one item per line"))
+                continue
+            if len(rits) != len(lines):
+                k = min(len(rits), len(lines))
+                hit(f"large-map:item-count:{proto}",
+                    dict(replay, what="the listing of a large gophermap is not one item per gophermap line", items=len(rits),
+                         first_line_not_rendered=lines[k][:200] if k < len(lines) else None,
+                         last_items=[str(x[0])[:80] for x in rits[-3:]]))
+                continue
+            n = len(lines)
+            bad = None
+            for i, (wt, (desc, _)) in enumerate(zip(wants, rits)):
+                if wt is None:
+                    continue
+                stats["large_map_item_checks"] += 1
+                if desc != as_rendered(proto, wt[1]):
+                    bad = (i, "rendered description differs from the documented reading", desc)
+                    break
+                if items is not None:
+                    wantm = (wt[0], wt[1], wt[2], wt[3] if wt[3] is not None else SRV, str(wt[4] if wt[4] is not None else PORT))
+                    if items[i][:5] != wantm:
+                        bad = (i, "Gopher menu line differs from the documented reading", list(items[i]))
+                        break
+            if bad is None:
+                idxs = set(range(min(n, 40))) | set(range(max(0, n - 40), n)) | set(rng.sample(range(n), min(n, 150)))
+                for i in sorted(idxs):
+                    if wants[i] is None:
+                        continue
+                    stats["large_map_target_checks"] += 1
+                    why = target_problem(proto, wants[i], rits[i][1])
+                    if why is not None:
+                        bad = (i, "the item does not lead where its gophermap line points: " + why, rits[i][1])
+                        break
+            if bad is not None:
+                i, why, got = bad
+                hit(f"large-map:items:{proto}",
+                    dict(replay, what=why, line_index=i, lines_after_it=n - 1 - i, line=lines[i][:300],
+                         documented=[str(x)[:300] for x in wants[i]], rendered=str(got)[:300]))
+                continue
+            # K: the Gopher0 menu of the maps built by repetition
+            if proto == "gopher" and m["k"] == "entries+menu" and m["parts"] is not None and not w["zip"]:
+                body = u(ob)
+                pname = "%sp%d" % (P, mi)
+                key = dict(replay, kind="large-map menu", tree=None, gophermap_latin1=None)
+                variants = (True,) if len(m["data"]) > 20000 else (True, False)
+                pre.append("Definition %sm%d : (N * (str * str)) := (%d, (%s, %s))." % (
+                    P, mi, len(body), coq_str(body[:400]), coq_str(body[-600:])))
+                cases = ["(%s, (((%s, %s), (%s, %sex)), %sm%d))" % (
+                    coq_bool(fixed), coq_str(m["selector"]), coq_bool(m["is_file"]), pname, P, P, mi) for fixed in variants]
+                coqjobs.append([pre, cases, [(fx, key) for fx in variants], "chk_bigmenu"])
+                stats["large_map_k_cases"] += 1
+    return [("\n".join(pre), cases, keys, checker) for pre, cases, keys, checker in coqjobs]
+
+
 def run(tier):
     chk = Check("C09", tier)
     chk.proofs(extra_files=["Corr/K09.v"])
@@ -1327,6 +1691,11 @@ def run(tier):
     concurrency_leg(chk, rng, thorough, hit, stats)
     chk.notes["seconds_concurrency_leg"] = round(_time.time() - t_c0, 1)
 
+    # ---------------- large gophermaps ----------------
+    t_s0 = _time.time()
+    bigjobs = size_leg(chk, rng, thorough, hit, stats)
+    chk.notes["seconds_large_map_leg"] = round(_time.time() - t_s0, 1)
+
     # ---------------- K: model in Coq vs implementation ----------------
     import concurrent.futures
     t_coq0 = _time.time()
@@ -1339,7 +1708,7 @@ def run(tier):
             part = group[k:k + 3]
             batched.append((PRE + "\n" + "\n".join(j[0] for j in part), [c for j in part for c in j[1]],
                             [key for j in part for key in j[2]], checker))
-    wjobs = batched
+    wjobs = batched + [(PRE + "\n" + j[0], j[1], j[2], j[3]) for j in bigjobs]     # one large map per shard
 
     def eval_world(arg):
         k, (pre, wcases, wkeys, checker) = arg
@@ -1387,6 +1756,12 @@ def run(tier):
                         "streams": "wf = every line well-formed by the documents; padded = white space around fields, "
                                    "indented info, empty description, >4 fields, int() extras (no raise expected); "
                                    "raising = one or two malformed lines (component level only)"}
+    cov["generator"]["large_maps"] = (
+        "file sizes exactly at, one byte either side of, and beyond %s bytes (a line ending exactly on the boundary with more "
+        "lines behind it; lines straddling it; header + stanza * n + tail repetitions whose compact description the model "
+        "expands inside Coq), 7000-20000 (thorough: 70000) very short / blank lines, single lines of 4095 .. 300000 bytes (info "
+        "text, link description, URL: selector; also as the LAST line), LF and CRLF, last line with and without its newline; "
+        "as <dir>/gophermap and x.gophermap at depths 0-3 and inside /T.zip; every protocol" % SIZE_BOUNDS)
     for smp in (sample_comp, sample_e2e):
         if smp:
             chk.sample(smp)
@@ -1440,6 +1815,11 @@ def run(tier):
         "history leg: DirHandler's own listing cache (.cache.pygopherd.dir) is switched off (cachetime = 0; C10's subject) so that "
         "only gophermap handling is observed; the reference is the same tree state served by a freshly forked process that never "
         "served a request; modification times are masked when responses are compared",
+        "large-map leg: every line is well-formed by the documents; the oracle (entry count = line count, every entry and every "
+        "rendered description = the documented reading, link targets of the first 40, the last 40 and 150 sampled lines) is "
+        "computed in the harness; the model in Coq sees only the maps built by repetition up to ~160 kB (count, first 5 and last 8 "
+        "entries; for maps up to ~80 kB also length, head and tail of the Gopher0 menu); the quick tier asks for the 1 MiB map in "
+        "Gopher, Gopher+ and three other protocols drawn per run",
         "both model variants are evaluated: 'repaired' (relative links of a *.gophermap file resolved against the directory the file "
         "is in; the positive theorems) and 'pinned' (against the file's own selector); K holds when the code matches the repaired "
         "variant, or matches the pinned one and the oracle exhibited the difference on the real code",
@@ -1468,6 +1848,33 @@ def replay(path):
                           "listings": [[slot, [[e["type"], e["name"], e["selector"]] for e in ents][:8]] for slot, ents in o["lists"]],
                           "alone": [[[e["type"], e["name"], e["selector"]] for e in (a or [])][:8] for a in alone],
                           "still_differs": differs}, indent=1, ensure_ascii=True))
+        return 1 if differs else 0
+    if rp.get("kind") == "large-map":
+        reqs = [{"data": rp["request_latin1"], "tls": rp.get("tls", False)}] if rp.get("request_latin1") is not None else []
+        res, = impl_run([{"op": "gm_world", "tree": rp["tree"], "config": rp["config"], "maps": [sel], "requests": reqs}])
+        if not res["ok"]:
+            print(res["err"])
+            return 2
+        data = rp["gophermap_latin1"].encode("latin-1")
+        lines = [u(l) for l in split_lines(data)]
+        ddir = doc_dir(sel, rp.get("is_mapfile", False))
+        comp = res["res"]["components"][0]
+        ents = comp["entries"] or []
+        out = {"selector": sel, "gophermap_bytes": len(data), "gophermap_lines": len(lines), "handler": comp["handler"],
+               "exception": comp["exc"], "entries": len(ents),
+               "last_entries": [[e["type"], e["name"][:120], e["selector"][:120]] for e in ents[-3:]],
+               "last_lines": [ln[:120] for ln in lines[-3:]]}
+        differs = comp["exc"] is not None or len(ents) != len(lines) or any(
+            twin_wf(ln) and twin_item(ddir, ln) != (e["type"], e["name"], e["selector"], e["host"], e["port"])
+            for ln, e in zip(lines, ents))
+        for q, o in zip(reqs, res["res"]["results"]):
+            rits, _ = rendered_items(rp["protocol"], o["out"].encode("latin-1"))
+            out["rendered_items"] = None if rits is None else len(rits)
+            out["response_tail_latin1"] = o["out"][-600:]
+            differs = differs or rits is None or len(rits) != len(lines) or any(
+                twin_wf(ln) and d != as_rendered(rp["protocol"], twin_item(ddir, ln)[1]) for ln, (d, _) in zip(lines, rits))
+        out["still_differs"] = bool(differs)
+        print(json.dumps(out, indent=1, ensure_ascii=True, default=repr))
         return 1 if differs else 0
     if rp.get("kind") == "live":
         print("live replays are re-run by ./check C09 (thread schedules are not reproducible from a file)")
